@@ -20,7 +20,7 @@
    contradict itself on committees_at_slot / committee length.
    Every theorem quantifies over ALL duty lists (any slots before, at and after the current one,
    any number of committees and validators per committee, any order), all digests, sizes, targets. *)
-From Verif Require Import Lib.Base Model.C14_Subscriptions Model.C14_Spec Proofs.C14.
+From Verif Require Import Lib.Base Model.C14_Subscriptions Model.C14_Spec Proofs.C14 Check.C14 Proofs.C14_Check.
 
 (* ------------------------------------------------------------------------------------------- *)
 (* The selection rule.                                                                         *)
@@ -273,6 +273,70 @@ Theorem C14_history_every_selected_committee_gets_job :
          exists a', In a' atts /\ akey a' = akey a /\ j_root j = a_root a').
 Proof. exact history_selected_committee_gets_job. Qed.
 Print Assumptions C14_history_every_selected_committee_gets_job.
+
+(* ------------------------------------------------------------------------------------------- *)
+(* The property predicate of the correspondence check (Check/C14.v), evaluated on what the REAL
+   implementation was observed to do, never through the model.                                 *)
+
+(* P_sub true on an observed submission (all calls of one subscribe) implies the property of that
+   submission: exactly the pairs with a duty after the current slot, once each; each naming a
+   validator with that duty, its committees_at_slot and the specification's flag; aggregator if
+   any validator of the committee is selected. *)
+Theorem C14_P_sub_sound :
+  forall tgt cur sign_fail duties calls,
+    P_sub tgt cur false false sign_fail duties calls = true ->
+    let entries := concat calls in
+    NoDup (map pkey entries) /\
+    (forall s c, In (s, c) (map pkey entries) <->
+                 cur < s /\ exists d, duty_for (sign_ok_of sign_fail) duties s c d) /\
+    (forall p, In p entries ->
+       exists d, duty_for (sign_ok_of sign_fail) duties (p_slot p) (p_comm p) d /\ cur < p_slot p /\
+         p_val p = d_val d /\
+         (consistent_duties duties -> p_cas p = d_cas d /\ p_agg p = selected tgt d)) /\
+    (consistent_duties duties ->
+       forall p d, In p entries -> duty_for (sign_ok_of sign_fail) duties (p_slot p) (p_comm p) d ->
+                   cur < p_slot p -> selected tgt d = true -> p_agg p = true).
+Proof. exact P_sub_sound. Qed.
+Print Assumptions C14_P_sub_sound.
+
+(* ... and the model's submission always satisfies it: P_sub cannot fire on an implementation that
+   agrees with the model (no false alarm from the predicate itself). *)
+Theorem C14_model_satisfies_P_sub :
+  forall tgt cur sign_fail duties,
+    digests_ok duties ->
+    P_sub tgt cur false false sign_fail duties
+          [to_submit cur (subscription_info tgt (sign_ok_of sign_fail) duties)] = true.
+Proof. exact model_satisfies_P_sub. Qed.
+Print Assumptions C14_model_satisfies_P_sub.
+
+(* P_att true on an observed attest step ([prev]: the jobs observed before it, [kn]: the latest
+   subscribe inputs per epoch) implies: nothing scheduled is lost; names are distinct; the real
+   Aggregate requested and submitted what the job carries; every new job is for an attested
+   committee, not in the past, at StartOfSlot + delay, for one of our validators with that duty
+   and its own slot signature (a selected one, when the answer was self-consistent); and every
+   attested committee with a selected validator has a job. *)
+Theorem C14_P_att_sound :
+  forall pr kn prev dslot cur no_acct atts jobs,
+    P_att pr kn prev dslot cur false no_acct atts jobs = true ->
+    let js := map fst jobs in
+    (forall j, In j prev -> In j js) /\
+    NoDup (map jkey js) /\
+    (forall j o, In (j, o) jobs -> o = Some (j_dslot j, j_root j, j_val j, j_sig j)) /\
+    (forall j, In j js -> ~ In (jkey j) (map jkey prev) ->
+       exists sf ds, known_get (dslot / spe pr) kn = Some (sf, ds) /\
+         (exists a, In a atts /\ akey a = jkey j /\ a_root a = j_root j) /\
+         cur <= j_slot j /\ j_time j = j_slot j * slot_ms pr + delay_ms pr /\ j_dslot j = j_slot j /\
+         acct_ok_of no_acct (j_val j) = true /\
+         exists d, duty_for (sign_ok_of sf) ds (j_slot j) (j_comm j) d /\ d_val d = j_val j /\
+                   d_sig d = j_sig j /\ (consistent_duties ds -> selected (agg_target pr) d = true)) /\
+    (forall sf ds, known_get (dslot / spe pr) kn = Some (sf, ds) -> consistent_duties ds ->
+       forall a d, In a atts -> cur <= a_slot a ->
+         duty_for (sign_ok_of sf) ds (a_slot a) (a_comm a) d -> selected (agg_target pr) d = true ->
+         (forall d', In d' ds -> dkey d' = akey a -> selected (agg_target pr) d' = true ->
+                     acct_ok_of no_acct (d_val d') = true) ->
+         In (akey a) (map jkey js)).
+Proof. exact P_att_sound. Qed.
+Print Assumptions C14_P_att_sound.
 
 (* ------------------------------------------------------------------------------------------- *)
 (* The pinned tree (before the two `fix:` commits), kept as refutations with their witnesses.  *)
